@@ -1370,17 +1370,7 @@ func (h *verifC09Run) opOpen(f map[string]string) (res string) {
 			diff = verifC09FirstDiff(d, h.oracleD[latest])
 		}
 	}
-	// the recovered ledger must be able to continue with the next block of the chain
-	cont := "end"
-	if int(latest)+1 < len(h.blocks) {
-		if err := l.AddBlock(h.blocks[latest+1], agreement.Certificate{}); err != nil {
-			cont = "ADDERR"
-		} else if d2 := verifC09Dump(l, h.u); verifC09Digest(d2) != h.oracle[latest+1] {
-			cont = "DIFF " + verifC09FirstDiff(d2, h.oracleD[latest+1])
-		} else {
-			cont = "ok"
-		}
-	}
+	// (read BEFORE the ledger is given another block: a later commit legitimately sets the marker again for a while)
 	// catchpoint bookkeeping after recoverFromCrash: the "writing first stage info" marker must be clear, and when the tracker DB
 	// round is a first-stage round of this configuration its first stage info must be recorded
 	cpx := ""
@@ -1394,6 +1384,17 @@ func (h *verifC09Run) opOpen(f map[string]string) (res string) {
 		}
 		isFS := T > 0 && (uint64(T)+lb)%h.cfg.CatchpointInterval == 0
 		cpx = fmt.Sprintf(" cpmark=%d/%s cpfs=%v/%v/%s", mark, verifC09Err(err1), fs, isFS, verifC09Err(err2))
+	}
+	// the recovered ledger must be able to continue with the next block of the chain
+	cont := "end"
+	if int(latest)+1 < len(h.blocks) {
+		if err := l.AddBlock(h.blocks[latest+1], agreement.Certificate{}); err != nil {
+			cont = "ADDERR"
+		} else if d2 := verifC09Dump(l, h.u); verifC09Digest(d2) != h.oracle[latest+1] {
+			cont = "DIFF " + verifC09FirstDiff(d2, h.oracleD[latest+1])
+		} else {
+			cont = "ok"
+		}
 	}
 	return fmt.Sprintf("%s latest=%d hashes=%s next=%s dump=%s want=%s cont=%s%s diff=%s", head, latest, hashes, next, dig, want, cont, cpx, diff)
 }
